@@ -41,7 +41,8 @@ def run(ctx):
     unsync = m.group(1).strip() if m else "?"
     m2 = re.search(r"program_writes_at_run_time[^=]*:= \[(.*?)\]\.", text, re.S)
     progw = m2.group(1).strip() if m2 else "?"
-    ctx.coverage["footprint"] = {"unsynchronised_accesses": unsync, "program_writes_at_run_time": progw,
+    m3 = re.search(r"library_state_resets[^=]*:= \[(.*?)\]\.", text, re.S)
+    ctx.coverage["footprint"] = {"unsynchronised_accesses": unsync, "program_writes_at_run_time": progw, "library_state_resets": m3.group(1).strip() if m3 else "?",
                                  "package_vars": re.search(r"package_vars[^=]*:= \[(.*?)\]\.", text, re.S).group(1)}
     # dynamic search for a failing schedule: the -race harness
     exe = vh.build_harness(race=True)
